@@ -115,6 +115,9 @@ def _case(draw, tier):
         spec["gscale"] = draw(st.sampled_from([1e-2, 1e-4, 1e-5]))
     if exact and spec["noise_type"] in ("general", "additive") and spec["m"] > spec["d"]:
         exact = False
+    # per-sample conditioning: every batch member has its own diffusion scale (also for additive noise: constant in y, but
+    # a (batch, d, m) tensor whose slices differ)
+    spec["rowdep"] = draw(st.booleans())
     return {"spec": spec, "combo": combo, "time": tset, "exact": exact,
             "c": draw(st.lists(st.integers(-1500, 1500).map(lambda k: k / 1000.0), min_size=4, max_size=4)),
             "outs": draw(st.lists(st.floats(0.02, 0.98), min_size=0, max_size=4)),
@@ -126,7 +129,9 @@ def _case(draw, tier):
             "extra": draw(st.sampled_from([False, False, True])),
             "adaptive": draw(st.sampled_from([False, False, False, True])),
             # drift, diffusion and prior drift supplied under other names (`names=`), decoys under the canonical ones
-            "renamed": draw(st.sampled_from([False, False, True]))}
+            "renamed": draw(st.sampled_from([False, False, True])),
+            # an inner output time a hair (5e-4 dt) after a step-grid point: still an output strictly inside a step
+            "near_grid_out": draw(st.sampled_from([None, None, 1, 2, 3]))}
 
 
 def strategy(tier):
@@ -137,7 +142,8 @@ def enumerate_cases(tier):
     """Every accepted cell twice (generic and exact f - h = g c variants) on a time-dependent SDE."""
     for rnd, spec, combo in solve.enumerate_cells(7005, all_levy=False):
         for exact in (False, True):
-            yield {"spec": spec, "combo": combo, "exact": exact and not (spec["m"] > spec["d"]),
+            spec = dict(spec, rowdep=(exact or rnd.random() < 0.5))
+            yield {"spec": spec, "combo": combo, "exact": exact and not (spec["m"] > spec["d"]), "near_grid_out": rnd.choice([None, 2, 4]),
                    "time": {"t0": 0.1, "t1": 0.1 + 6 * 0.125, "dt": 0.125, "tdtype": "float64"},
                    "c": [round(rnd.uniform(-1.5, 1.5), 3) for _ in range(4)], "outs": [0.3, 0.7],
                    "entropy": rnd.randrange(2 ** 31 - 2), "via_adjoint": rnd.random() < 0.3, "extra": rnd.random() < 0.3,
@@ -152,11 +158,28 @@ def run_case(case):
     sde = sdes.build_generic(spec)
     d, m, B = spec["d"], spec["m"], spec["batch"]
     diag = spec["noise_type"] == "diagonal"
+    # condition number of every diffusion matrix evaluated during the case (all solver stages, all solves): the oracle
+    # tolerances below are stated relative to it
+    seen_cond = [1.0]
+    if not diag:
+        gen_sde = sde
+
+        def g_spy(t, y):
+            out = type(gen_sde).g(gen_sde, t, y)
+            with torch.no_grad():
+                if out.dim() == 3 and out.size(0) <= 64:
+                    seen_cond[0] = max(seen_cond[0], float(torch.linalg.cond(out.detach()).max()))
+            return out
+        gen_sde.g = g_spy
     if case["exact"]:
         c = torch.tensor(case["c"][:m], dtype=dtype)
         sde = WithC(sde, c)
     y0 = sdes.y0_for(spec)
     vals = sorted({tm["t0"], tm["t1"]} | {tm["t0"] + (tm["t1"] - tm["t0"]) * f for f in case["outs"]})
+    if case.get("near_grid_out"):
+        tn = tm["t0"] + (case["near_grid_out"] + 5e-4) * tm["dt"]
+        if tm["t0"] < tn < tm["t1"]:
+            vals = sorted(set(vals) | {tn})
     ts = torch.tensor(vals, dtype=dtype)
     if any(float(b) <= float(a) for a, b in zip(ts[:-1], ts[1:])):
         return Result(labels=["degenerate_ts"])
@@ -254,7 +277,11 @@ def run_case(case):
     l_user = ya[1:, :, -1] - ya[:-1, :, -1]
     e_aug = max(float((lq - l_user).abs().max()) / lscale, float((ys - ya[:, :, :-1]).abs().max()) / scale)
     checks += 1
-    if not e_aug <= 1e-10:
+    # the library uses a pseudo-inverse, the harness's augmentation a least-squares solve: for an ill-conditioned diffusion
+    # matrix they agree to eps * cond(g)^2 only (conditioning of the problem, not of either implementation)
+    cond_aug = seen_cond[0]
+    tol_aug = 1e-10 + 1e3 * eps * min(cond_aug, 1e5) ** 2
+    if not e_aug <= tol_aug:
         return fail("vs_independent_augmentation", f"logqp differs from the user-level augmented SDE solved by the same "
                                                    f"solver: rel {e_aug:.3e} ({solve.combo_label(combo)})")
     e_exact = 0.0
@@ -282,4 +309,5 @@ def run_case(case):
         [k for k in ("via_adjoint", "extra", "adaptive", "renamed") if case.get(k)]
     return Result(nontrivial=len(ts) >= 3 and steps >= 3, labels=labels, checks=checks,
                   metrics={"state_err_in_eps": e_state / eps, "additivity_err": e_add, "augmentation_err": e_aug,
+                           "augmentation_err_over_tolerance": e_aug / tol_aug,
                            "exact_err": e_exact})
